@@ -326,6 +326,51 @@ theorem log_perm_invariant {a b : Slice} (h : SlicePerm a b) :
       ⟨fun ⟨n, hn, e⟩ => ⟨n, h.nodes.mem_iff.mp hn, e⟩, fun ⟨n, hn, e⟩ => ⟨n, h.nodes.mem_iff.mpr hn, e⟩⟩
     rw [e1]
 
+/-! ### topology object vs serialised model -/
+
+theorem inferSite_idem (r : RawSvc) : inferSite { r with svc := inferSite r } = inferSite r := by
+  unfold inferSite
+  cases hl : r.limited
+  · simp
+  · simp only [if_true]
+    split
+    · rename_i x hx
+      by_cases hs : r.svc.site = ""
+      · simp only [hs, if_true]
+        by_cases hx0 : x = "" <;> simp [hx0]
+      · simp [hs]
+    · rename_i hx
+      split
+      · rename_i x hx'; exact absurd hx' (hx x)
+      · rfl
+
+theorem recordSites_stamp (rs : RawSlice) : recordSites (stamp rs) = recordSites rs := by
+  unfold recordSites stamp
+  simp only [List.map_map]
+  congr 1
+  apply List.map_congr_left
+  intro r _
+  exact inferSite_idem r
+
+/-- **Topology object vs serialised model.** The ASM path validates before it collects, so the model serialised
+*before* `validate()` ever ran (`rs`), the model serialised *after* it (`stamp rs`: inferred sites stored) and the
+validated topology object (`recordSites rs`) all yield the same attributes and the same accounting summary. (That the
+rebuilt topology presents the same slivers is the GraphML round trip, C01, and is checked on the implementation.) -/
+theorem asm_eq_topo (rs : RawSlice) :
+    collectAsm rs = collect (recordSites rs) ∧ collectAsm (stamp rs) = collect (recordSites rs) ∧
+    logCollectAsm rs = logCollect (recordSites rs) ∧ logCollectAsm (stamp rs) = logCollect (recordSites rs) := by
+  unfold collectAsm logCollectAsm
+  rw [recordSites_stamp]
+  exact ⟨rfl, rfl, rfl, rfl⟩
+
+/-- the inference is not vacuous: an undeclared single-site service gets its owner's site, and without the inference
+(`validate()` skipped) the external site would be listed as unknown -/
+theorem asm_inference_matters :
+    let r : RawSvc := ⟨⟨"v4a", "FABNetv4Ext", "", none, none⟩, ["RENC"], true⟩
+    get (collectAsm ⟨[], [r], [], []⟩) .RESOURCE_FABNETV4_EXT = [.s "RENC"] ∧
+    get (collect ⟨[], [r.svc], [], []⟩) .RESOURCE_FABNETV4_EXT = [.s unknownSite] := by
+  refine ⟨?_, ?_⟩ <;> decide
+
 /-! ### the defect repaired by /repo a372b34, on the pre-repair fold (`collectLegacy`, no longer the code) -/
 
 def legacyA : Slice :=
